@@ -1157,6 +1157,31 @@ fn op_pool() -> Vec<N> {
     v.push(op(Op::Read, vec![m.clone(), a1.clone()]));
     v.push(op(Op::Store, vec![m.clone(), a1.clone(), a8.clone()]));
     v.push(op(Op::Store, vec![aa.clone(), a1.clone(), a8.clone()]));
+    // operands that are themselves operator calls in the shapes a "no-op elimination" in a builder would look at:
+    // a store of the value read at the same index (same array / ANOTHER array), a read of a store, a store over
+    // a store, same-operand and double applications, adjacent slices, equal branches
+    let rd = |arr: &N| op(Op::Read, vec![arr.clone(), a1.clone()]);
+    v.push(op(Op::Store, vec![m.clone(), a1.clone(), rd(&m)]));
+    v.push(op(Op::Store, vec![m.clone(), a1.clone(), rd(&aa)]));
+    v.push(op(Op::Store, vec![aa.clone(), a1.clone(), rd(&m)]));
+    v.push(op(Op::Store, vec![m.clone(), b1.clone(), rd(&m)]));
+    v.push(op(Op::Read, vec![op(Op::Store, vec![m.clone(), a1.clone(), a8.clone()]), a1.clone()]));
+    v.push(op(Op::Read, vec![op(Op::Store, vec![m.clone(), a1.clone(), a8.clone()]), b1.clone()]));
+    v.push(op(Op::Store, vec![op(Op::Store, vec![m.clone(), a1.clone(), a8.clone()]), a1.clone(), b8.clone()]));
+    v.push(op(Op::Not, vec![op(Op::Not, vec![a8.clone()])]));
+    v.push(op(Op::Neg, vec![op(Op::Neg, vec![a8.clone()])]));
+    v.push(op(Op::Xor, vec![a8.clone(), a8.clone()]));
+    v.push(op(Op::Sub, vec![a8.clone(), a8.clone()]));
+    v.push(op(Op::Or, vec![a8.clone(), a8.clone()]));
+    v.push(op(Op::And, vec![a8.clone(), op(Op::Not, vec![a8.clone()])]));
+    v.push(op(Op::Add, vec![a8.clone(), N::Lit(8, Kind::Zero, Route::ZeroOneOnes)]));
+    v.push(op(Op::Ite, vec![a1.clone(), a8.clone(), a8.clone()]));
+    v.push(op(Op::Ite, vec![op(Op::Not, vec![a1.clone()]), a8.clone(), b8.clone()]));
+    v.push(op(Op::Concat, vec![op(Op::Slice(7, 4), vec![a8.clone()]), op(Op::Slice(3, 0), vec![a8.clone()])]));
+    v.push(op(Op::Concat, vec![op(Op::Slice(7, 4), vec![a8.clone()]), op(Op::Slice(3, 0), vec![b8.clone()])]));
+    v.push(op(Op::ZExt(1), vec![op(Op::ZExt(1), vec![a8.clone()])]));
+    v.push(op(Op::SExt(1), vec![op(Op::ZExt(1), vec![a8.clone()])]));
+    v.push(op(Op::Eq, vec![m.clone(), m.clone()]));
     v.push(op(Op::ZeroArray(1, 8), vec![]));
     v.push(op(Op::AConst(1), vec![N::Lit(8, Kind::Zero, Route::ZeroOneOnes)]));
     v.push(op(Op::Distinct, vec![a8.clone(), b8.clone()]));
@@ -1202,6 +1227,17 @@ fn leaf_pool() -> Vec<N> {
         N::Sym("m", Ty::Arr(1, 8), SymVia::Builder),
         N::Str("a"),
         N::Str("zz"),
+        // names a "helpful" normalisation would touch: SMT quoting, blanks, case, step suffixes, the empty name
+        sym("|a|", Ty::Bv(8)),
+        sym("|b", Ty::Bv(8)),
+        sym(" a", Ty::Bv(8)),
+        sym("a ", Ty::Bv(8)),
+        sym("A", Ty::Bv(8)),
+        sym("a@0", Ty::Bv(8)),
+        sym("", Ty::Bv(8)),
+        N::Sym("|a|", Ty::Bv(8), SymVia::StrRef),
+        N::Sym("|a|", Ty::Arr(1, 8), SymVia::Builder),
+        N::Str("|a|"),
         N::Lit(1, Kind::Zero, Route::TrueFalse),
         N::Lit(1, Kind::Zero, Route::Not),
         l.tru,
